@@ -95,6 +95,33 @@ var propC15 = regHistory("C15", "history", profIndex, func() []hOracle { return 
 
 func TestProp_C15_history(t *testing.T) { propC15.Check(t) }
 
+// C15 on the single-file store with reopen steps ("including after reopening
+// the file"): definitions survive, reloaded indexes are coherent
+var profIndexPersist = func() *hProfile {
+	p := *profIndex
+	p.name = "index-persist"
+	p.storeFail = 0
+	p.weights = map[string]int{}
+	for k, v := range profIndex.weights {
+		p.weights[k] = v
+	}
+	p.weights["reopen"] = 6
+	delete(p.weights, "txnAborted")
+	return &p
+}()
+
+var propC15Persist = Register(&Prop{ID: "C15", Sub: "persist",
+	Live: liveHistoryOn(openFile, profIndexPersist, func() []hOracle { return []hOracle{&oracleIndex{}} }, 8, 24, func(r *hRun) bool {
+		o := r.oracles[0].(*oracleIndex)
+		return o.maxIndexes >= 3 && o.reopens >= 1
+	}),
+	Run: runHistoryOn(openFile, func() []hOracle { return []hOracle{&oracleIndex{}} }, func(r *hRun) bool {
+		o := r.oracles[0].(*oracleIndex)
+		return o.maxIndexes >= 3 && o.reopens >= 1
+	})})
+
+func TestProp_C15_persist(t *testing.T) { propC15Persist.Check(t) }
+
 // C08
 var propC08 = regHistory("C08", "history", profOplog, func() []hOracle { return []hOracle{&oracleOplog{}} }, 8, 30, func(r *hRun) bool {
 	o := r.oracles[0].(*oracleOplog)
